@@ -35,14 +35,34 @@ def build(repo):
     except Exception as e:
         raise Undecided(f"{FILE}: arm `Rule::import` of ModuleType::from_node not found: {e}")
     body = arm["body"]
-    p = Pat("let module_import = $$e ;")
-    cut = None
-    for i in range(len(body)):
-        r = p.match_at(body, i)
-        if r:
-            cut = r[0]; break
+    # the statement that performs the import: up to the `;` that ends it (whatever its form: `let x = ..?;`, `let Ok(x) = .. else {..};`, `match`)
+    from vlib.lexer import match_close as _mc
+    at = None
+    for i in range(len(body) - 2):
+        if body[i] == "." and body[i + 1] == "import" and body[i + 2] == "(":
+            at = i; break
+    if at is None:
+        raise Undecided(f"{FILE}: no call of `.import(..)` in the import arm of from_node")
+    cut, k = None, at
+    while k < len(body):
+        if body[k] in ("(", "[", "{"):
+            k = _mc(body, k)
+        elif body[k] in (")", "]", "}"):
+            break                                   # the call sits inside a bracket that closes before a `;`: find the statement's end outside
+        elif body[k] == ";":
+            cut = k + 1; break
+        k += 1
     if cut is None:
-        raise Undecided(f"{FILE}: `let module_import = ..;` not found in the import arm of from_node")
+        # the import call is nested in a block (e.g. `let x = match CALL { .. };`): walk outwards to the enclosing statement's `;`
+        depth, k = 0, at
+        while k < len(body):
+            if body[k] in ("(", "[", "{"): depth += 1
+            elif body[k] in (")", "]", "}"): depth -= 1
+            elif body[k] == ";" and depth <= 0:
+                cut = k + 1; break
+            k += 1
+    if cut is None:
+        raise Undecided(f"{FILE}: end of the importing statement not found in the import arm of from_node")
     frag = body[:cut]
     log.append(("R0", "ModuleType::from_node, arm Rule::import", "statements up to `let module_import = ..;`", "fragment: the binding of imported types that follows is not part of this unit"))
     b = translate(frag, parser_idioms() + [
